@@ -165,6 +165,26 @@ func buildGraphic(c Case) ([]byte, error) {
 		square(0, k)
 		k++
 	}
+	// a register overwritten (incrementing form): the palette entry of the same number is still
+	// what a palette index means, alone and as first or second operand of a blend
+	for _, i := range c.Uses {
+		u := uint8(i)
+		enc.SetCSel(u)
+		enc.SetCReg(0, true, ivg.RGBAColor(color.RGBA{0x10, 0x20, 0x30, 0xff}))
+		enc.SetCSel((u + 21) & 63)
+		enc.SetCReg(0, false, ivg.PaletteIndexColor(u))
+		square(0, k)
+		k++
+		enc.SetCReg(0, false, ivg.BlendColor(0x40, 0x80|u, 0x7f))
+		square(0, k)
+		k++
+		enc.SetCReg(0, false, ivg.BlendColor(0xc0, 0x7f, 0x80|u))
+		square(0, k)
+		k++
+		enc.SetCSel(u)
+		square(0, k)
+		k++
+	}
 	b, err := enc.Bytes()
 	return append([]byte{}, b...), err
 }
@@ -274,52 +294,56 @@ func checkOptions(c Case) error {
 		}
 	}
 
-	// (ii) the paint of every path, through a Renderer
+	// (ii) the paint of every path, through a Renderer; then once more into the same Renderer
+	// (the options seed the registers again at every decode)
 	rr := &rast.Recorder{}
 	var z render.Renderer
 	z.SetRasterizer(rr, image.Rect(0, 0, 64, c.Height))
-	hook := &ops.Recorder{Inner: &z}
-	if err := decode.Decode(hook, src, opts...); err != nil {
-		return harness.Violatef("c14/decode-error", "Decode into a Renderer: %v", err)
-	}
-	var vm spec.VM
-	vm.Reset(sanitised)
-	var want []*spec.PathPaint
-	for _, o := range hook.Ops[1:] {
-		if pp := vm.Step(o, c.Height); pp != nil {
-			want = append(want, pp)
+	for pass := 0; pass < 2; pass++ {
+		rr.Calls = rr.Calls[:0]
+		hook := &ops.Recorder{Inner: &z}
+		if err := decode.Decode(hook, src, opts...); err != nil {
+			return harness.Violatef("c14/decode-error", "Decode into a Renderer: %v", err)
 		}
-	}
-	var draws []*rast.Paint
-	starts := 0
-	for _, cl := range rr.Calls {
-		if cl.K == rast.Reset {
-			starts++
-		}
-		if cl.K == rast.Draw {
-			draws = append(draws, cl.P)
-		}
-	}
-	di := 0
-	for pi, pp := range want {
-		switch pp.Kind {
-		case spec.PaintSkipped:
-			continue
-		case spec.PaintFlat:
-			if di >= len(draws) {
-				return harness.Violatef("c14/paint", "path %d must be painted flat %v (palette-derived) but was not drawn at all (%d draws in total, %d expected so far)", pi, pp.Flat, len(draws), di+1)
+		var vm spec.VM
+		vm.Reset(sanitised)
+		var want []*spec.PathPaint
+		for _, o := range hook.Ops[1:] {
+			if pp := vm.Step(o, c.Height); pp != nil {
+				want = append(want, pp)
 			}
-			d := draws[di]
-			di++
-			if d.Kind != "uniform" || d.Uniform != pp.Flat {
-				return harness.Violatef("c14/paint", "path %d painted with %v; the options give palette-derived colour %v", pi, describe(d), pp.Flat)
-			}
-		default:
-			return harness.Violatef("c14/harness", "reference prescribes %v for a palette-driven graphic", pp.Kind)
 		}
-	}
-	if di != len(draws) {
-		return harness.Violatef("c14/paint", "%d paths drawn, %d expected (a user palette entry acted as something other than a flat colour?)", len(draws), di)
+		var draws []*rast.Paint
+		starts := 0
+		for _, cl := range rr.Calls {
+			if cl.K == rast.Reset {
+				starts++
+			}
+			if cl.K == rast.Draw {
+				draws = append(draws, cl.P)
+			}
+		}
+		di := 0
+		for pi, pp := range want {
+			switch pp.Kind {
+			case spec.PaintSkipped:
+				continue
+			case spec.PaintFlat:
+				if di >= len(draws) {
+					return harness.Violatef("c14/paint", "path %d must be painted flat %v (palette-derived) but was not drawn at all (%d draws in total, %d expected so far)", pi, pp.Flat, len(draws), di+1)
+				}
+				d := draws[di]
+				di++
+				if d.Kind != "uniform" || d.Uniform != pp.Flat {
+					return harness.Violatef("c14/paint", "path %d painted with %v; the options give palette-derived colour %v", pi, describe(d), pp.Flat)
+				}
+			default:
+				return harness.Violatef("c14/harness", "reference prescribes %v for a palette-driven graphic", pp.Kind)
+			}
+		}
+		if di != len(draws) {
+			return harness.Violatef("c14/paint", "%d paths drawn, %d expected (a user palette entry acted as something other than a flat colour?)", len(draws), di)
+		}
 	}
 
 	// (iii) inputs untouched
